@@ -783,7 +783,23 @@ func dashFreeToken(v ssa.Value, pkg string, bind map[*ssa.Parameter]ssa.Value, d
 		return !strings.Contains(s, "-")
 	}
 	switch x := v.(type) {
+	case *ssa.Parameter:
+		if b := bind[x]; b != nil && core.Resolve(b) != ssa.Value(x) {
+			return dashFreeToken(b, pkg, bind, depth+1)
+		}
+		return false
 	case *ssa.UnOp:
+		if x.Op == token.MUL {
+			if cell := core.CellOf(x.X); cell != nil {
+				sts := core.StoresTo(cell)
+				for _, st := range sts {
+					if !dashFreeToken(st.Val, pkg, bind, depth+1) {
+						return false
+					}
+				}
+				return len(sts) > 0
+			}
+		}
 		if ia, ok := x.X.(*ssa.IndexAddr); ok {
 			if sp, ok := core.Resolve(ia.X).(*ssa.Call); ok && core.Call(sp).IsFunc("strings", "Split") {
 				return isDash(sp.Call.Args[1])
@@ -839,10 +855,12 @@ func sentinelBelief(p *core.Program, pkg, name string, k int64) bool {
 	}
 	typ, field := name[:dot], name[dot+1:]
 	seen := map[ssa.Value]bool{}
-	var okVal func(v ssa.Value, depth int) bool
-	okVal = func(v ssa.Value, depth int) bool {
+	var okValB func(v ssa.Value, depth int, bind map[*ssa.Parameter]ssa.Value) bool
+	okVal := func(v ssa.Value, depth int) bool { return okValB(v, depth, nil) }
+	okValB = func(v ssa.Value, depth int, bind map[*ssa.Parameter]ssa.Value) bool {
+		okVal := func(v ssa.Value, depth int) bool { return okValB(v, depth, bind) }
 		v = core.Resolve(v)
-		if seen[v] {
+		if seen[v] && bind == nil {
 			return true
 		}
 		seen[v] = true
@@ -879,18 +897,29 @@ func sentinelBelief(p *core.Program, pkg, name string, k int64) bool {
 				return false
 			}
 			if core.Call(call).IsFunc("strconv", "ParseInt") && x.Index == 0 {
-				return dashFreeToken(call.Call.Args[0], pkg, nil, 0)
+				return dashFreeToken(call.Call.Args[0], pkg, bind, 0)
 			}
 			g := call.Call.StaticCallee()
 			if g == nil || g.Blocks == nil || core.PkgPathOf(g) != pkg {
 				return false
+			}
+			// judged per call: the callee's parameters are what this call passes (a shared low-level parser is
+			// dash-free for the caller that hands it a dash-free token, whatever its other callers pass)
+			nb := map[*ssa.Parameter]ssa.Value{}
+			for i, a := range call.Call.Args {
+				if i < len(g.Params) {
+					nb[g.Params[i]] = a
+					if pp, isP := core.Resolve(a).(*ssa.Parameter); isP && bind[pp] != nil {
+						nb[g.Params[i]] = bind[pp]
+					}
+				}
 			}
 			n := 0
 			for _, r := range returnsIn(g) {
 				if x.Index >= len(r.Results) {
 					return false
 				}
-				if !okVal(r.Results[x.Index], depth+1) {
+				if !okValB(r.Results[x.Index], depth+1, nb) {
 					return false
 				}
 				n++
